@@ -8,6 +8,9 @@
 #include <vector>
 using namespace PyImath;
 namespace PyImath { template <> int FixedArrayDefaultValue<int>::value () { return 0; } }
+#ifndef NB
+#define NB 6
+#endif
 static int g_argc; static char **g_argv;
 static bool has (const char *name) { std::string k = std::string (name) + "="; for (int i = 1; i < g_argc; i++) if (std::string (g_argv[i]).rfind (k, 0) == 0) return true; return false; }
 static long long val (const char *name)
@@ -25,7 +28,6 @@ int main (int argc, char **argv)
     g_argc = argc; g_argv = argv;
     if (argc > 1 && !strcmp (argv[1], "--types")) return 0;
     Py_Initialize ();
-    const int NB = 6;
     long len = (long) (val ("in_len") % (NB + 1)); if (len < 0) len = -len;
     bool masked = val ("in_masked") != 0, writable = val ("in_writable") != 0, is_slice = val ("in_is_slice") != 0, is_int = val ("in_is_int") != 0;
     if (!has ("in_len")) { len = 1; is_slice = true; }
